@@ -239,10 +239,11 @@ func (r *Run) doReplay(cfg explore.Config, body func(*explore.Ctx)) {
 		fmt.Printf("replay of %s, choices %v, on %d goroutines at once, 8 executions each\n", rp.Harness, rp.Choices, rp.Concurrent)
 		if n == 0 {
 			fmt.Println("no oracle clause failed on this tree")
-		} else {
-			fmt.Printf("FAILED clause=%s signature=%q in %d of %d concurrent executions\n", rp.Clause, rp.Sig, n, 8*rp.Concurrent)
+			os.Exit(0)
 		}
-		return
+		fmt.Printf("FAILED clause=%s signature=%q in %d of %d concurrent executions\n", rp.Clause, rp.Sig, n, 8*rp.Concurrent)
+		fmt.Printf("VIOLATION property=%s replay=%s\n", rp.Property, os.Getenv("VERIF_REPLAY_PATH"))
+		os.Exit(1)
 	}
 	var first string
 	for i := 0; i < 2; i++ {
